@@ -64,7 +64,8 @@ RULE = (
     "every single fault after which the save still returned normally (failing setup call worked around, "
     "EXDEV fallback) is kept in place while the run is recorded again and the positions that follow it "
     "(exceptions, mid-write and LINE deaths) are exercised - sampled in quick, all in thorough - plus a "
-    "primary failure followed by a failing cleanup call. "
+    "primary failure followed by a failing cleanup call. Before the enumeration (which the time budget cuts "
+    "after a few scenarios per shard) the undisturbed save of every planned scenario is run and judged. "
     "Non-trivial: a destination data file pre-exists, at least one tensor is written, and at least one "
     "death and one exception position were exercised; distinct by scenario description."
 )
@@ -134,6 +135,8 @@ def plan(tier: str) -> dict:
         # budget_s); an idle machine does about four times as much
         "floors": {
             "scenarios_enumerated": 3 if quick else 100,
+            # pass 1: the undisturbed save of every planned scenario is judged before the enumeration
+            "undisturbed_pass|scenarios": 100 if quick else 1500,
             "death_points|line": 3000 if quick else 30000,
             "death_points|midwrite": 10 if quick else 150,
             "death_outcome|old": 1500 if quick else 15000,
@@ -1239,6 +1242,20 @@ def _reproduces(ctx_like, replay: dict, signature: str, base: str) -> bool:
     return signature in sigs
 
 
+class _PrefixCtx:
+    """Counter sink that files everything under a prefix (pass 1 of ``run``)."""
+
+    def __init__(self, ctx, prefix: str) -> None:
+        self._ctx = ctx
+        self._prefix = prefix
+
+    def count(self, key: str, n: int = 1) -> None:
+        self._ctx.count(self._prefix + key, n)
+
+    def note(self, text: str) -> None:
+        self._ctx.note(text)
+
+
 class _QuietCtx:
     """Counter sink used while shrinking / replaying."""
 
@@ -1364,7 +1381,41 @@ def run(ctx) -> None:
     thorough = ctx.tier != "quick"
     seen_signatures: set[str] = set()
     complete = True
+
+    def report(judge: Judge) -> None:
+        for sig, msg, replay in judge.found:
+            if sig not in seen_signatures:
+                seen_signatures.add(sig)
+                if len(seen_signatures) > 6 or ctx.out_of_time():
+                    ctx.violation(sig, msg, replay)   # a flood: keep the raw witness
+                    continue
+                shrunk = shrink_witness(replay, sig, os.path.join(base, "shrink"), max_tries=30)
+                if shrunk is not replay:
+                    msg += "\nMinimal witness: " + _describe_replay(shrunk)
+                replay = shrunk
+            ctx.violation(sig, msg, replay)
+
     try:
+        # ---- pass 1: the undisturbed save of EVERY scenario of this shard (two saves each) ---------
+        # The enumeration below is cut by the time budget after a few scenarios on a loaded machine;
+        # what the save does to pre-existing files when nothing fails is judged for all of them first
+        # (counters under their own prefix so that the floors keep describing the enumeration).
+        pre = _PrefixCtx(ctx, "undisturbed_pass|")
+        for case in range(ctx.shard, ctx.total_cases, ctx.nshards):
+            if ctx.out_of_time():
+                break
+            spec = gen_spec(ctx.rng(case), case)
+            cdir = os.path.join(base, f"pre{case}")
+            os.makedirs(cdir)
+            judge = Judge(pre, spec, cdir)
+            reference_and_recording(judge, spec)
+            shutil.rmtree(cdir, ignore_errors=True)
+            ctx.count("undisturbed_pass|scenarios")
+            ctx.count("undisturbed_pass|scenarios|" + ("sharded" if spec["sharded"] else "single-file"))
+            if spec["sharded"] and spec.get("collide"):
+                ctx.count("undisturbed_pass|scenarios|sharded|colliding shard name pre-exists")
+            report(judge)
+        # ---- pass 2: every fault position of as many scenarios as the budget allows --------------
         for case in ctx.case_ids():
             rng = ctx.rng(case)
             spec = gen_spec(rng, case)
@@ -1402,17 +1453,7 @@ def run(ctx) -> None:
                 ctx.evaluation(key=stable_hash({k: v for k, v in spec.items() if k != "collide_pick"}),
                                nontrivial=nontrivial)
                 ctx.sample(summary)
-            for sig, msg, replay in judge.found:
-                if sig not in seen_signatures:
-                    seen_signatures.add(sig)
-                    if len(seen_signatures) > 6 or ctx.out_of_time():
-                        ctx.violation(sig, msg, replay)   # a flood: keep the raw witness
-                        continue
-                    shrunk = shrink_witness(replay, sig, os.path.join(base, "shrink"), max_tries=30)
-                    if shrunk is not replay:
-                        msg += "\nMinimal witness: " + _describe_replay(shrunk)
-                    replay = shrunk
-                ctx.violation(sig, msg, replay)
+            report(judge)
     finally:
         shutil.rmtree(base, ignore_errors=True)
     ctx.exhaustive = complete and not ctx.truncated_by_time
